@@ -382,6 +382,13 @@ PeerClose ==
   /\ st' = ClosedSt(st)
   /\ Emit(Cmd("EOF", ""), <<>>, CloseCbs(st))
 
+\* nothing arrives within ReadTimeout while the server waits for a command
+\* line: 421 4.4.2 and the connection is closed
+IdleTimeout ==
+  /\ InCmdMode /\ "idle" \in Alphabet
+  /\ st' = ClosedSt(st)
+  /\ Emit(Cmd("IDLE", ""), <<R(421, <<4, 4, 2>>)>>, CloseCbs(st))
+
 \* an over-long command line: 500 5.4.0 and the connection is closed
 LongLine ==
   \* also while the server waits for an AUTH response
@@ -532,7 +539,7 @@ Next ==
   \/ BdatAny
   \/ Rset \/ Noop \/ Vrfy \/ Unimpl
   \/ \E v \in {"unknown", "empty", "short", "nospace"} : BadLine(v)
-  \/ Quit \/ PeerClose \/ LongLine \/ PanicMail \/ DataPanic \/ AfterClose
+  \/ Quit \/ PeerClose \/ LongLine \/ IdleTimeout \/ PanicMail \/ DataPanic \/ AfterClose
   \/ \E over \in BOOLEAN : DataCut(over)
   \/ \E n \in ChunkSizes, l \in BOOLEAN, p \in {"", "acc", "rej", "early", "panic"}, some \in BOOLEAN : BdatCut(n, l, p, some)
   \/ \E ir \in {"none", "empty", "bytes"}, nchal \in 0..2, fin \in {"ok", "fail"} : AuthStart(ir, nchal, fin)
